@@ -205,6 +205,9 @@ def run(ctx: Ctx):
     okw = len(walks) == 2 and all(u(c.args[0]) == "self.initial_state.copy()" and u(c.args[2]) == "self.max_iters" for c in walks)
     col.ob("G1", "S4", f"{rel}::SequentialLanguageModelDistribution.sample::walk(initial_state.copy(), n, max_iters)", okw,
            f"the walk is run as {[u(c) for c in walks]}", rel, sm.line)
+    # log_prob accepts every shape sample() returns: value = sample_shape + batch_shape + event_shape with a possibly
+    # empty sample_shape, so on the branch for batch_shape of length k the smallest admissible rank is k + 1
+    _log_prob_min_rank(ctx, dist, lp, rel)
     # every scoring call of the wrapper starts the model from a fresh copy of the initial state (siblings agree)
     lmc = [c for c in own_calls(lp.node) if u(c.func) == "self.random_walk.lm"]
     col.ob("G1", "S4", f"{rel}::SequentialLanguageModelDistribution.log_prob::lm(hist, initial_state.copy())",
@@ -229,9 +232,81 @@ def run(ctx: Ctx):
     )
 
 
+def _log_prob_min_rank(ctx: Ctx, dist, lp, rel: str):
+    from sa.defuse import ReachingDefs
+    col = ctx.col
+    init = [m for fl in dist.methods.values() for m in fl if m.name == "__init__"][0]
+    lens = set()
+    rdi = ReachingDefs(init.node)
+    sup = [c for c in own_calls(init.node) if isinstance(c.func, ast.Attribute) and c.func.attr == "__init__" and c.args
+           and isinstance(c.args[0], ast.Name)]
+    for c in sup:
+        for d in rdi.defs_of(c.args[0]):
+            v = d.value
+            if d.kind == "assign" and isinstance(v, ast.Call) and call_name(v) == "torch.Size" and v.args \
+                    and isinstance(v.args[0], (ast.List, ast.Tuple)):
+                lens.add(len(v.args[0].elts))
+    if lens != {0, 1} or not sup:
+        raise AnalysisError(f"C07: batch shapes of the distribution are {sorted(lens)}; expected the empty and the one-element shape")
+    rd = ReachingDefs(lp.node)
+    pm = parent_map(lp.node)
+    vname = lp.params[1].name
+    n_sites = 0
+    for n in own_nodes(lp.node):
+        need, what = None, None
+        if isinstance(n, ast.Call) and isinstance(n.func, ast.Attribute) and isinstance(n.func.value, ast.Name) and n.func.value.id == vname \
+                and all(d.kind == "param" for d in rd.defs_of(n.func.value)):
+            dims = [a.operand.value for a in list(n.args) + [k.value for k in n.keywords]
+                    if isinstance(a, ast.UnaryOp) and isinstance(a.op, ast.USub) and isinstance(a.operand, ast.Constant)
+                    and isinstance(a.operand.value, int)]
+            if n.func.attr in ("flatten", "transpose", "unsqueeze", "squeeze", "select", "movedim", "size"):
+                need, what = (max(dims) if dims else 0), u(n)
+            elif n.func.attr in ("reshape", "view", "long", "to", "numel"):
+                need, what = 0, u(n)  # rank-agnostic
+        elif isinstance(n, ast.Attribute) and n.attr in ("T", "mT") and isinstance(n.value, ast.Name) and n.value.id == vname \
+                and all(d.kind == "param" for d in rd.defs_of(n.value)):
+            need, what = 2, u(n)
+        if need is None or what.endswith(".size(-1)"):
+            continue
+        k = None
+        for t, pol in guards_of(pm, n):
+            if u(t) == "len(self.batch_shape)":
+                k = 1 if pol else 0
+        if k is None:
+            continue
+        n_sites += 1
+        col.ob("G19", "S4", f"{rel}::SequentialLanguageModelDistribution.log_prob::accepts-unbatched-sample-shape[batch_shape-len={k}]",
+               need <= k + 1,
+               f"with a batch shape of length {k}, `sample()` (empty sample_shape) returns a tensor of rank {k + 1}, but log_prob "
+               f"applies `{what}`, which needs rank >= {need}: log_prob(dist.sample()) raises instead of returning the path's "
+               f"log-probability", rel, n.lineno, sample=dict(op=what, needs_rank=need, smallest_value_rank=k + 1))
+    col.floor("log_prob_rank_sites", n_sites, 2)
+    # the sequence (event) dimension is dynamically sized (paths may end early): the shape validation must not pin it
+    vs = [m for fl in dist.methods.values() for m in fl if m.name == "_validate_sample"]
+    if not vs:
+        raise AnalysisError("C07: the distribution no longer overrides _validate_sample")
+    rdv = ReachingDefs(vs[0].node)
+    bc = [c for c in own_calls(vs[0].node) if call_name(c).endswith("broadcast_shapes")]
+    pinned = []
+    for c in bc:
+        for a in c.args:
+            der = rdv.derives(a)
+            txt = " ".join(u(x) for x in der.nodes())
+            if "self.event_shape" in txt:
+                pinned.append(u(a))
+    col.ob("G19", "S4", f"{rel}::SequentialLanguageModelDistribution._validate_sample::sequence-dimension-left-to-the-support-check",
+           bool(bc) and not pinned,
+           f"the shape validation broadcasts against {pinned} which include the event shape (max_iters,): a sample that ends "
+           f"early (1 < length < max_iters) is in the support but is rejected, so log_prob of the wrapper's own samples raises "
+           f"whenever argument validation is on", rel, vs[0].line, sample=[u(c)[:80] for c in bc])
+
+
 def _mutants():
     from selftest.mutate import Mutant as M
     _extra = [
+        M("log-prob-needs-sample-dim", "_decoding.py", "value = value.reshape(-1, batch_size, value.size(-1)).transpose(1, 2)", "value = value.flatten(end_dim=-3).transpose(1, 2)", "accepts-unbatched-sample-shape[batch_shape-len=1]"),
+        M("log-prob-transposes-a-vector", "_decoding.py", "value = value.reshape(-1, value.size(-1))\n            hist = value.T", "hist = value.T", "accepts-unbatched-sample-shape[batch_shape-len=0]"),
+        M("validation-pins-sequence-length", "_decoding.py", "exp_shape = tuple(self.batch_shape)\n        act_shape = tuple(value.shape[:-1])", "exp_shape = tuple(self.batch_shape + self.event_shape)\n        act_shape = tuple(value.shape)", "sequence-dimension-left-to-the-support-check"),
         M("eos-located-after-zeroing", "_decoding.py", "hyp_lens = _lens_from_eos(hyp, eos, dim) + 1", "hyp = hyp.masked_fill(mask, 0)\n        hyp_lens = _lens_from_eos(hyp, eos, dim) + 1", "eos-and-oov-read-the-given-tokens"),
         M("eos-located-on-zeroed-copy", "_decoding.py", "hyp_lens = _lens_from_eos(hyp, eos, dim) + 1", "hyp_lens = _lens_from_eos(hyp.masked_fill(mask, 0), eos, dim) + 1", "G"),
         M("unbatched-default-state", "_decoding.py", "log_probs = self.random_walk.lm(hist[:-1].long(), self.initial_state.copy())\n            log_probs = log_probs.transpose(0, 1)", "log_probs = self.random_walk.lm(hist[:-1].long())\n            log_probs = log_probs.transpose(0, 1)", "lm(hist, initial_state.copy())"),
@@ -266,10 +341,13 @@ MANIFEST = dict(
         "packed sequence-score kernels (same masking steps, same neutral element for the same reduction), the neutral-"
         "element table of greedy CTC decoding, single-source parameters of the distribution wrapper, def-use versions in "
         "the score kernels (first eos and out-of-vocabulary test read the tokens as given, only the gather index is the "
-        "zeroed copy) and agreement of the wrapper's model calls on a fresh copy of the initial state. Necessary "
+        "zeroed copy), agreement of the wrapper's model calls on a fresh copy of the initial state, and producer/consumer "
+        "shape agreement of the wrapper (log_prob accepts the smallest rank sample() returns; validation leaves the "
+        "dynamically sized sequence dimension to the support check). Necessary "
         "conditions of 'identically for padded and packed input', 'up to and including the first end-of-sequence' and of "
         "the three code paths agreeing; the numeric agreement itself is not decided."),
-    level_note="Trusted: python ast; documented exception that eos is ignored for packed input.",
+    level_note="Trusted: python ast; documented exception that eos is ignored for packed input. F26 (log_prob of a sample without "
+               "sample dimensions raised) and F27 (validation rejected early-ending samples) were found and repaired.",
     technique="static analysis: sibling-implementation agreement (step fingerprints), neutral-element tables, argument/slot binding, single-source attribute use, def-use version rule",
     design_ref="DESIGN.md section 4 C07",
 )
